@@ -669,8 +669,10 @@ def gen_case(rng: random.Random, profile: Profile | None = None):
             r_ = rng.choice(cands)
             x = rng.choice(NONFINITE_PARAMS)
             r_.params = rng.choice([(x,), ('A', x), (x, 'b')])
-            # (non-finite KEYWORD parameter values are left out: on this tree the emitted model source prints
-            # kwparams={'k': inf} and does not load - reported, not yet recorded)
+            if rng.random() < 0.4:
+                # (keyword parameter values too: /repo 1e68cf0 repaired kwparams={'k': inf} in the emitted source)
+                r_.params = ('A',)
+                r_.kwparams = (('k', x),)
     if rng.random() < 0.08:
         # an @override redefinition of an existing rule (the later definition wins)
         victim = rng.choice(g.rules)
